@@ -230,6 +230,135 @@ theorem gen_Pers_split_eq (y doy : Int) (h1 : -decBound < doy - 1 - 186) (h2 : d
 
 theorem gen_Pers_leapArithmetic_eq (y : Int) : Gen.C01.Pers.leapArithmetic y = Pers.leapArithmetic y := rfl
 
+/-! ## bit-test leap rules (tabular Islamic, Persian simple) and the Islamic year start (a `for` loop) -/
+
+theorem and_two_pow_pos (bits k : Nat) : (0 < bits &&& 2 ^ k) ↔ bits.testBit k = true := by
+  constructor
+  · intro h
+    by_cases ht : bits.testBit k = true
+    · exact ht
+    · exfalso
+      have hz : bits &&& 2 ^ k = 0 := by
+        apply Nat.eq_of_testBit_eq
+        intro i
+        rw [Nat.testBit_and, Nat.testBit_two_pow, Nat.zero_testBit]
+        by_cases hki : k = i
+        · subst hki
+          simp only [Bool.not_eq_true] at ht
+          simp only [ht, Bool.false_and]
+        · simp only [hki, decide_false, Bool.and_false]
+      omega
+  · intro ht
+    have h1 : (bits &&& 2 ^ k).testBit k = true := by
+      rw [Nat.testBit_and, Nat.testBit_two_pow_self, ht]; rfl
+    have h2 := Nat.ge_two_pow_of_testBit h1
+    have h3 : 0 < 2 ^ k := Nat.two_pow_pos k
+    omega
+
+/-- `pattern & (1 << k) > 0` is the bit test of the model -/
+theorem pyAnd_shl_one (bits k : Nat) : decide (Gen.pyAnd (bits : Int) ((1 : Int) * 2 ^ k) > 0) = bits.testBit k := by
+  have e : ((1 : Int) * 2 ^ k) = Int.ofNat (2 ^ k) := by
+    rw [Int.one_mul]; exact (Int.natCast_pow 2 k).symm
+  rw [e]
+  show decide (Int.ofNat (bits &&& 2 ^ k) > 0) = _
+  have h := and_two_pow_pos bits k
+  cases hb : bits.testBit k with
+  | true =>
+    have := h.mpr hb
+    simp only [decide_eq_true_eq]
+    exact Int.ofNat_lt.mpr this
+  | false =>
+    have hn : ¬ (0 < bits &&& 2 ^ k) := fun hp => by rw [h.mp hp] at hb; cases hb
+    simp only [decide_eq_false_iff_not]
+    intro hp
+    exact hn (Int.ofNat_lt.mp hp)
+
+theorem yearOfCycle_nonneg (y n : Int) (hn : 0 < n) :
+    0 ≤ (if y ≥ 0 then csharpMod y n else csharpMod y n + n) := by
+  rw [csharpMod_pos y n hn]
+  have h1 := Int.emod_nonneg y (Int.ne_of_gt hn)
+  have h2 := Int.emod_lt_of_pos y hn
+  split <;> split <;> omega
+
+theorem gen_Isl_isLeap_eq (bits : Nat) (y : Int) : Gen.C01.Isl.isLeap (bits : Int) y = .ok (Isl.isLeap bits y) := by
+  unfold Gen.C01.Isl.isLeap Isl.isLeap Gen.pyShl
+  have h := yearOfCycle_nonneg y 30 (by decide)
+  simp only [if_neg (Int.not_lt.mpr h), bind, Except.bind]
+  rw [pyAnd_shl_one]
+
+theorem gen_Pers_leapSimple_eq (y : Int) : Gen.C01.Pers.leapSimple y = .ok (Pers.leapSimple y) := by
+  unfold Gen.C01.Pers.leapSimple Pers.leapSimple Gen.pyShl
+  have h := yearOfCycle_nonneg y 33 (by decide)
+  simp only [if_neg (Int.not_lt.mpr h), bind, Except.bind]
+  have e : (1145184802 : Int) = ((Pers.simpleBits : Nat) : Int) := by rfl
+  rw [e, pyAnd_shl_one]
+
+/-- the `for i in range(year_at_start_of_cycle, year)` loop adds up the year lengths -/
+theorem gen_Isl_start_loop1_eq (len : Int → Int) (d1 hi : Int) (fuel : Nat) (i days : Int)
+    (h1 : i ≤ hi) (h2 : (hi - i).toNat < fuel) :
+    Gen.C01.Isl.start.loop1 len d1 hi fuel i days = .ok (hi, days + sumFrom len (hi - i).toNat i) := by
+  induction fuel generalizing i days with
+  | zero => omega
+  | succ n ih =>
+    unfold Gen.C01.Isl.start.loop1
+    by_cases h : i < hi
+    · simp only [h, if_true]
+      rw [ih (i + 1) (days + len i) (by omega) (by omega)]
+      have e : (hi - i).toNat = (hi - (i + 1)).toNat + 1 := by omega
+      rw [e, sumFrom, Int.add_assoc]
+    · have e' : i = hi := by omega
+      subst e'
+      simp only [Int.lt_irrefl, if_false, Int.sub_self, Int.toNat_zero, sumFrom, Int.add_zero]
+
+theorem gen_Isl_start_loop2_eq (len : Int → Int) (d1 hi : Int) (fuel : Nat) (i days : Int)
+    (h1 : i ≤ hi) (h2 : (hi - i).toNat < fuel) :
+    Gen.C01.Isl.start.loop2 len d1 hi fuel i days = .ok (hi, days + sumFrom len (hi - i).toNat i) := by
+  induction fuel generalizing i days with
+  | zero => omega
+  | succ n ih =>
+    unfold Gen.C01.Isl.start.loop2
+    by_cases h : i < hi
+    · simp only [h, if_true]
+      rw [ih (i + 1) (days + len i) (by omega) (by omega)]
+      have e : (hi - i).toNat = (hi - (i + 1)).toNat + 1 := by omega
+      rw [e, sumFrom, Int.add_assoc]
+    · have e' : i = hi := by omega
+      subst e'
+      simp only [Int.lt_irrefl, if_false, Int.sub_self, Int.toNat_zero, sumFrom, Int.add_zero]
+
+/-- `_calculate_start_of_year_days` of the tabular Islamic calendars (any pattern, any epoch) -/
+theorem gen_Isl_start_eq (bits : Nat) (epoch y : Int) (h1 : -decBound < y - 30) (h2 : y < decBound) :
+    Gen.C01.Isl.start (Isl.len bits) epoch y = .ok (Isl.start bits epoch y) := by
+  unfold Gen.C01.Isl.start Isl.start Gen.C01.Calc.daysAtStartOfYear1
+  by_cases hy : y > 0
+  · simp only [hy, if_true]
+    rw [pyTdiv_bind _ _ _ (by decide) (by unfold decBound at *; omega) (by unfold decBound at *; omega) (by decide) (by decide)]
+    have hq : Int.tdiv (y - 1) 30 = (y - 1) / 30 := by
+      simp (disch := decide) only [tdiv_pos]; rw [if_pos (by omega)]
+    rw [gen_Isl_start_loop1_eq _ _ _ _ _ _ (by rw [hq]; omega) (by rw [hq]; omega)]
+    rfl
+  · simp only [hy, if_false]
+    rw [pyTdiv_bind _ _ _ (by decide) (by unfold decBound at *; omega) (by unfold decBound at *; omega) (by decide) (by decide)]
+    have hq : Int.tdiv (y - 30) 30 = -((-(y - 30)) / 30) := by
+      simp (disch := decide) only [tdiv_pos]; rw [if_neg (by omega)]
+    rw [gen_Isl_start_loop2_eq _ _ _ _ _ _ (by rw [hq]; omega) (by rw [hq]; omega)]
+    rfl
+
+/-- `CalendarSystem._get_day_of_week` for a date whose day number is `d`: the weekday formula always lands in
+    1 … 7, so the `IsoDayOfWeek(...)` lookup cannot fail -/
+theorem gen_dayOfWeek_eq (ymd : Gen.YMD) (d : Int) :
+    Gen.C01.dayOfWeek (fun _ => .ok d) ymd = .ok (dayOfWeek d) := by
+  unfold Gen.C01.dayOfWeek dayOfWeek Gen.isoDayOfWeek
+  simp only [bind, Except.bind]
+  have h7 : (0 : Int) < 7 := by decide
+  have a1 := Int.emod_nonneg (d + 3) (Int.ne_of_gt h7)
+  have a2 := Int.emod_lt_of_pos (d + 3) h7
+  have b1 := Int.emod_nonneg (d + 4) (Int.ne_of_gt h7)
+  have b2 := Int.emod_lt_of_pos (d + 4) h7
+  rw [if_pos]
+  rw [csharpMod_pos _ _ h7, csharpMod_pos _ _ h7]
+  split <;> split <;> omega
+
 /-! ## `_YearMonthDayCalculator`: the calendar-independent layer (virtual members = abstract callees, instantiated
       with the record `c : Calc` of the model; instance attributes = parameters) -/
 
